@@ -403,7 +403,7 @@ func c17() int {
 	var states, transitions, tokenEvals int64
 	maxN := 8
 	if rep.Thorough() {
-		maxN = 10
+		maxN = 12
 	}
 	type job struct {
 		ids      []int64
@@ -462,7 +462,7 @@ func c17() int {
 	tokenChecks(rep, &tokenEvals)
 	storeN := 7
 	if rep.Thorough() {
-		storeN = 10
+		storeN = 12
 	}
 	storeWalks, storeFetches := c17StoreWalks(rep, storeN)
 	transitions += int64(storeFetches)
